@@ -1311,6 +1311,14 @@ class Evaluator:
                 val = sym_term(sy)
             elif isinstance(vn, ast.Constant):
                 val = ("const", vn.value)
+            elif isinstance(vn, ast.Lambda):
+                lid = f"T{abs(hash((g[1], k.value))) % 10**8}"
+                if lid not in self.lambdas:
+                    try:
+                        self.lambdas[lid] = Evaluator(self.index, m, vn, f"{g[1]}[{k.value!r}]", None).run()
+                    except (AnalysisError, RecursionError):
+                        return None
+                val = ("lambda", lid)
             else:
                 return None
             v = ITE(mk_cmp("eq", key, ("const", k.value)), val, v)
@@ -1353,6 +1361,13 @@ class Evaluator:
 
     def _norm_call(self, f, args, named, spreads, live, n):
         plain = not named and not spreads and not any(a[0] == "star" for a in args)
+        # list(record) / tuple(record) is the display of its fields
+        if f in (("builtin", "list"), ("builtin", "tuple")) and plain and len(args) == 1 and args[0][0] == "call" and self._is_record(args[0]) \
+                and f[1] not in self.env:
+            ci_ = self.index.class_by_qual(args[0][1][1])
+            rv_ = self._record_values(ci_, args[0]) if any(b.split(".")[-1] == "NamedTuple" for b in ci_.ext_bases) else None
+            if rv_ is not None:
+                return (f[1], tuple(rv_.values()))
         # list(<generator expression>) is the list comprehension (same for set / dict of pairs)
         if f in (("builtin", "list"), ("builtin", "set")) and plain and len(args) == 1 and args[0][0] == "comp" and args[0][1] == "gen" \
                 and f[1] not in self.env:
@@ -1419,6 +1434,15 @@ class Evaluator:
                     return ITE(fn[1], dist(fn[2], AND(lv, fn[1])), dist(fn[3], AND(lv, NOT(fn[1]))))
                 if fn == NONE or fn[0] == "const":
                     return ("error", "call of a non-function")
+                if fn[0] == "lambda" and not named and not spreads:
+                    v_ = self._apply_fn(fn, list(args))
+                    if v_[0] == "call" and v_[1] != fn and lv != FALSE:
+                        inl_ = self._try_inline(v_[1], v_, lv, n)
+                        if inl_ is not None:
+                            return inl_
+                        ev2 = self.emit("call", lv, v_, n)
+                        ev2.kw_order = [k for k, _ in v_[3]]  # type: ignore[attr-defined]
+                    return v_
                 t_ = ("call", fn, tuple(args), tuple(named + spreads))
                 if lv == FALSE:
                     return t_
